@@ -176,3 +176,11 @@ Example C09_unrooted_forms_read_as_expressions :
     = Ok [PPredicate (EArithB BMul (EValue (PVNum (NFloat 4617315517961601024))) (EValue (PVNum (NFloat 4602678819172646912))))] /\
   parse_json_path [] = Ok [].
 Proof. vm_compute. repeat split; reflexivity. Qed.
+
+(* soundness (what the parser accepts is in the grammar) is proved so far for one step other than an index list: what
+   inner_path reads as  .*  [*]  .name  ."name"  :name  :"name"  ["name"]  is a step of the grammar with that meaning.
+   Not proved: index lists, expressions, whole paths (for these only the shape of the result is proved, C09_parser_image). *)
+Theorem C09_accepted_steps_are_in_the_grammar_partial :
+  forall bs r p, inner_path bs = POk r p -> (forall l, p <> PIndices l) -> exists t, bs = t ++ r /\ step_text t p.
+Proof. exact inner_path_sound_partial. Qed.
+Print Assumptions C09_accepted_steps_are_in_the_grammar_partial.
